@@ -63,7 +63,7 @@ func startPair(c *chains, b behav, served []*blockchain.Block) (pr *pair, out st
 		}
 	}
 	armed, quit := &atomic.Bool{}, make(chan struct{})
-	resp, err := newResponder(c, b, served, armed)
+	resp, err := newResponder(c, b, served, armed, quit)
 	if err != nil {
 		q.Close()
 		return nil, "setup-failed", []corr.Fail{fail("c19-setup", "responder: %v", err)}
@@ -361,6 +361,9 @@ func (p *pair) commonSearch(c *chains, w []string) (string, []corr.Fail) {
 	}
 	F, Q := c.prm.F, c.prm.Q
 	want := refCommonHeight(Q, fin, n, F)
+	if p.dead && !(F < fin && searchWraps(Q, fin, n)) {
+		fails = append(fails, fail("c19-honest-request-banned", "common block search of an honest requester (tip %d, finalized %d, round length %d, fork after %d): the honest peer's handler banned the requester", Q, fin, n, F))
+	}
 	if r.err != nil || r.h == nil {
 		// ---- model-free oracle ----
 		if want >= 0 {
